@@ -417,11 +417,40 @@ func ruleLK2(c *Ctx) {
 			// loader / commit calls directly in the callback
 			n := 0
 			bad := ""
-			for _, call := range callsIn(ls.Callback) {
-				cal := call.Common().StaticCallee()
-				if cal == nil || !c.InModule(cal) {
-					continue
+			// the section: the callback and the private helpers its body is split into (their parameters are read
+			// through the arguments of the call that enters them)
+			type secCall struct {
+				call ssa.CallInstruction
+				e    env
+			}
+			var secCalls []secCall
+			var visit func(g *ssa.Function, ge env, d int)
+			visit = func(g *ssa.Function, ge env, d int) {
+				for _, call := range callsIn(g) {
+					cal := call.Common().StaticCallee()
+					if cal == nil || !c.InModule(cal) {
+						continue
+					}
+					if d < 2 && commit[cal] && !c.isLoader(cal) && !c.opaqueHelper(cal) && c.inUnit(cal, ls.Callback) && !c.hasOwnCommitEffect(cal) {
+						ne := env{}
+						for k, v := range ge {
+							ne[k] = v
+						}
+						for i, prm := range cal.Params {
+							if i < len(call.Common().Args) {
+								ne[prm] = resolveEnv(call.Common().Args[i], ge)
+							}
+						}
+						visit(cal, ne, d+1)
+						continue
+					}
+					secCalls = append(secCalls, secCall{call, ge})
 				}
+			}
+			visit(ls.Callback, e, 0)
+			for _, sc := range secCalls {
+				call, e := sc.call, sc.e
+				cal := call.Common().StaticCallee()
 				if !(c.isLoader(cal) || commit[cal]) || len(call.Common().Args) == 0 {
 					continue
 				}
@@ -533,6 +562,16 @@ func (c *Ctx) loadsBeforeCommits(h *ssa.Function, commit map[*ssa.Function]bool,
 		}
 	}
 	return true
+}
+
+// hasOwnCommitEffect: fn itself performs a committing file operation (it is a write primitive, not a section helper).
+func (c *Ctx) hasOwnCommitEffect(fn *ssa.Function) bool {
+	for _, e := range c.F.Effects {
+		if e.Fn == fn && commitEffectClass(e.Class) {
+			return true
+		}
+	}
+	return false
 }
 
 func ruleLK4(c *Ctx) {
